@@ -15,6 +15,7 @@ type mapIterV struct {
 }
 
 func (e *Engine) syncMapOf(p *Value) *MapV {
+	e.yield() // every sync.Map operation is a synchronisation point
 	if e.syncMaps == nil {
 		e.syncMaps = map[*Value]*MapV{}
 	}
